@@ -841,6 +841,14 @@ def c18(prop, tier, seed, wd, explore, limit, kinds, we):
         for kind in ("HASHHF", "HASHUFFDAC"):
             for ov in (0, 1, 10, 25, 50, 100, 300):
                 dc.append(Case(kind, (ov,), "tinydense:%d:%d" % (len(S), v), S, r.choice(["fresh", "own"]), r.choice([1, 2, 3]) if kind == "HASHHF" else 1, ("locate", "extract", "extractTable"), seed=gen.splitmix(seed, v, 37)))
+    # many dictionaries of a few hundred geometric-letter words: rare phase combinations of the byte-wise decoders (about one
+    # dictionary in 250 meets the one a seeded change needed)
+    for v in range(2400 if tier == "quick" else 12000):
+        r = P.rng_for(seed, prop, 997000 + v)
+        S = gen.fam_geomwords(r, r.choice([300, 500]))
+        kind = "HASHUFFDAC" if v % 10 < 7 else ["HASHHF", "HTFC", "HHTFC"][v % 3]
+        pp = (r.choice([4, 8, 16]),) if kind in FC else (r.choice([0, 10, 25, 50]),)
+        dc.append(Case(kind, pp, "geomwords:%d:%d" % (len(S), v), S, "fresh", 1, ("locate", "extract"), seed=gen.splitmix(seed, v, 53)))
     # stems x tiny suffixes in buckets of two: the chunk that ends a bucket header reaches over the whole internal string and into the next header
     for v in range(24 if tier == "quick" else 200):
         r = P.rng_for(seed, prop, 996000 + v)
